@@ -18,6 +18,12 @@ pub struct COp {
 #[derive(Clone, Debug, Serialize, Deserialize)]
 pub struct Case {
     pub cfg: Cfg,
+    /// configuration of the unrelated instance (any kind / parameters)
+    #[serde(default)]
+    pub other: Option<Cfg>,
+    /// run the replay model in a freshly spawned thread (exposes thread-local state)
+    #[serde(default)]
+    pub replay_in_new_thread: bool,
     pub ops: Vec<COp>,
     /// the clone is taken just before ops[clone_at]
     pub clone_at: usize,
@@ -29,8 +35,9 @@ fn fresh(cfg: &Cfg) -> Result<Ind, Failure> {
 
 pub fn check(c: &Case, ctx: &mut Ctx) -> Result<(), Failure> {
     let name = c.cfg.kind.name();
+    let ocfg = c.other.clone().unwrap_or_else(|| c.cfg.clone());
     let mut orig = fresh(&c.cfg)?;
-    let mut other = fresh(&c.cfg)?;
+    let mut other = fresh(&ocfg)?;
     let mut clone: Option<Ind> = None;
     // per-instance input subsequences and recorded outputs
     let mut ins: [Vec<Inp>; 3] = [vec![], vec![], vec![]];
@@ -38,6 +45,9 @@ pub fn check(c: &Case, ctx: &mut Ctx) -> Result<(), Failure> {
     let mut fp = Fp::new("C05");
     c.cfg.fp(&mut fp);
     fp.u(c.clone_at as u64);
+    if let Some(o) = &c.other {
+        o.fp(&mut fp);
+    }
     let clone_at = c.clone_at.min(c.ops.len());
     let mut switches = 0;
     let mut last_target = 9u8;
@@ -75,20 +85,45 @@ pub fn check(c: &Case, ctx: &mut Ctx) -> Result<(), Failure> {
     }
     // replay model: each instance must be bit-identical to a fresh instance fed its own subsequence
     let who = ["original", "clone", "unrelated instance"];
+    let cfgs = [c.cfg.clone(), c.cfg.clone(), ocfg.clone()];
+    let has_clone = clone.is_some();
+    let replay = |ins: &[Vec<Inp>; 3]| -> Result<Vec<Vec<Out>>, Failure> {
+        let mut all = vec![];
+        for j in 0..3 {
+            let mut v = vec![];
+            if !(j == 1 && !has_clone) {
+                let mut f = fresh(&cfgs[j])?;
+                for inp in ins[j].iter() {
+                    v.push(feed(&mut f, inp));
+                }
+            }
+            all.push(v);
+        }
+        Ok(all)
+    };
+    let replayed: Vec<Vec<Out>> = if c.replay_in_new_thread {
+        let r = std::thread::scope(|sc| sc.spawn(|| crate::fw::guarded(|| replay(&ins))).join());
+        match r {
+            Ok(Ok(x)) => x?,
+            Ok(Err(msg)) => panic!("{}", msg),
+            Err(_) => panic!("HARNESS: replay thread died"),
+        }
+    } else {
+        replay(&ins)?
+    };
     for j in 0..3 {
-        if j == 1 && clone.is_none() {
+        if j == 1 && !has_clone {
             continue;
         }
-        let mut f = fresh(&c.cfg)?;
         for (s, inp) in ins[j].iter().enumerate() {
-            let o = feed(&mut f, inp);
+            let o = replayed[j][s];
             if !o.bits_eq(&outs[j][s]) {
                 let sym = if j == 1 && s < pre_clone_inputs { "nondeterministic" } else if j == 1 { "clone_diverges" } else { "interference" };
                 ctx.fail(
-                    format!("C05:{}:{}", name, sym),
+                    format!("C05:{}:{}", if j == 2 { ocfg.kind.name() } else { name }, sym),
                     format!(
-                        "{}: {} output #{} on input {:?} was {:?} in the interleaved run but {:?} from a fresh instance fed only its own {} inputs (clone taken before op {})",
-                        c.cfg.tag(), who[j], s, inp, outs[j][s].vals(), o.vals(), ins[j].len(), clone_at
+                        "{}: {} ({}) output #{} on input {:?} was {:?} in the interleaved run but {:?} from a fresh instance{} fed only its own {} inputs (clone taken before op {})",
+                        c.cfg.tag(), who[j], cfgs[j].tag(), s, inp, outs[j][s].vals(), o.vals(), if c.replay_in_new_thread { " on a new thread" } else { "" }, ins[j].len(), clone_at
                     ),
                 )?;
                 break;
@@ -114,12 +149,13 @@ fn strategy(cap: usize, maxops: usize) -> BoxedStrategy<Case> {
             let pre = vec((prop_oneof![4 => Just(0u8), 1 => Just(2u8)], inp_special(6)), w..=(2 * w + 4));
             let post_len = (2 * w + 4).min(maxops)..=(6 * w + 20).min(maxops.max(2 * w + 4));
             let post = vec((prop_oneof![4 => Just(0u8), 4 => Just(1u8), 1 => Just(2u8)], inp_special(6)), post_len);
-            (Just(cfg), pre, post)
+            let other = any_kind().prop_flat_map(|k| cfg_for(k, 24, multiplier_any()));
+            (Just(cfg), pre, post, other, any::<bool>())
         })
-        .prop_map(|(cfg, pre, post)| {
+        .prop_map(|(cfg, pre, post, other, th)| {
             let clone_at = pre.len();
             let ops = pre.into_iter().chain(post).map(|(target, inp)| COp { target, inp }).collect();
-            Case { cfg, ops, clone_at }
+            Case { cfg, other: Some(other), replay_in_new_thread: th, ops, clone_at }
         })
         .boxed()
 }
@@ -225,13 +261,13 @@ pub fn run(g: &mut Global) {
             let clone_at = (j % (l as u64 + 1)) as usize;
             let d = digits(j / (l as u64 + 1), 6, l);
             let ops = d.iter().map(|&x| COp { target: (x / 3) as u8, inp: letter(EALPHA[x % 3]) }).collect();
-            Case { cfg: cfg_small(kind, n), ops, clone_at }
+            Case { cfg: cfg_small(kind, n), other: None, replay_in_new_thread: false, ops, clone_at }
         },
         &check,
     );
     let cap = g.tier.pick(64usize, 256usize);
     let maxops = g.tier.pick(400usize, 2000usize);
-    g.random("random", g.tier.pick(12000, 150000), &move || strategy(cap, maxops), &check);
+    g.random("random", g.tier.pick(40000, 300000), &move || strategy(cap, maxops), &check);
     g.random("threads", g.tier.pick(208, 5008), &thread_strategy, &check_threads);
     if g.tier == Tier::Thorough {
         g.fuzz_stage("ops_equiv", Some(1), 2_000_000, "random", &|b| crate::fuzzdec::decode_c05(b), &check);
